@@ -85,6 +85,11 @@ CLAIMS["C03"] = dict(
    text="The ordering law itself (X.Y.Z < V < X.Y.(Z+1), strict growth) relates runtime values and is NOT decided. Decided are necessary conditions visible in code shape: no guard fires at a clean tag; a patch bump always carries a pre-release label (guard implication + validate() defaults the label and dominates bump construction); in every (mode, dirty, distance, tag shape, flag) case the label - and in commit mode the post number - that flow bumps is part of the tier the smart schema selects; commit-mode post grows by distance additively.",
    note="Trusted: rustc MIR, zfacts, rules/flowtpl.py, tables.py. Thin claim by design: breaking any of these four conditions breaks the law, but they do not imply it.",
    ref="4/C03")
+CLAIMS["C15"] = dict(
+   technique="sibling-implementation agreement over MIR: origin tracing of the context fields back to the same From<Zerv> conversions / Display helpers the formatters use, name-to-name wiring tables, registry table, guard-shape rules for the bounding functions",
+   text="Decides that the template context and the formatters are siblings over the same conversions and helpers for every Zerv object: {{ semver }}/{{ pep440 }} stringify the formatter's own conversion of the unmodified object; part accessors use Display's helpers and feed the fields of the same name; docker = SemVer with '-' twice; 16 scalar variables wired name-to-name; six functions registered by name, sanitize presets mapped to the renderers' sanitisers; hash/hash_int/prefix/prefix_if have the guard shape of their contracts. Recomposition as a value equality and format_timestamp vs the calendar are not decided.",
+   note="Trusted: rustc MIR, zfacts, rules/c15.py.",
+   ref="4/C15")
 REASONS = {}
 
 def main():
